@@ -63,5 +63,6 @@ HistoryFailures(vs) ==
   {id \in Enforce : id = "C18" /\
      \E i \in DOMAIN vs, j \in DOMAIN vs :
         \/ vs[i].etag.k # "tag"
+        \/ (vs[i].etag.k = "tag" /\ ~(vs[i].etag.q0 /\ vs[i].etag.qn /\ ~vs[i].etag.weak))   \* a strong tag, always
         \/ (vs[i].ver = vs[j].ver) # (vs[i].etag.v = vs[j].etag.v)}
 =============================================================================
